@@ -465,7 +465,8 @@ Inductive mode :=
 | MContRet                                 (* _continue returned normally                             *)
 | MDeliver (o : outcome)                   (* value() returns / raises                                *)
 | MUnwind (e : exn)                        (* a Python exception propagates through asynq frames      *)
-| MDone (o : outcome).                     (* the outermost call finished                             *)
+| MDone (o : outcome)                      (* the outermost call finished                             *)
+| MStuck.                                  (* ill-formed configuration (never reached from run_root)  *)
 
 Record cfg := mkC { c_mode : mode; c_frames : list frame; c_st : st }.
 
@@ -483,7 +484,7 @@ Definition step (P : params) (c : cfg) : cfg :=
   let s := c_st c in
   let fr := c_frames c in
   match c_mode c with
-  | MDone _ => c
+  | MDone _ | MStuck => c
 
   (* futures.py value 54-65 and the three _compute implementations *)
   | MValue h =>
@@ -503,14 +504,14 @@ Definition step (P : params) (c : cfg) : cfg :=
     | FWait root :: fr' =>
       if computed root s then mkC (MDeliver (outcome_of root s)) fr' s
       else mkC MExecLoop (FExec (length (tasks s)) :: fr) (with_tasks s (root :: tasks s))
-    | _ => mkC (MDone (Err E_NOTIMPL)) [] s
+    | _ => mkC MStuck fr s
     end
   | MAfterExec =>
     match fr with
     | FWait root :: fr' =>
       if computed root s then mkC (MDeliver (outcome_of root s)) fr' s
       else mkC MWaitHead fr (continue_with_batch P s)
-    | _ => mkC (MDone (Err E_NOTIMPL)) [] s
+    | _ => mkC MStuck fr s
     end
 
   (* scheduler.py _execute 76-116 and _handle_async_task 143-178 *)
@@ -545,7 +546,7 @@ Definition step (P : params) (c : cfg) : cfg :=
           | _ => mkC MExecLoop fr (pop_task s)
           end
         end
-    | _ => mkC (MDone (Err E_NOTIMPL)) [] s
+    | _ => mkC MStuck fr s
     end
 
   (* async_task.py _continue 164-201 and _continue_on_generator 203-247 *)
@@ -565,7 +566,7 @@ Definition step (P : params) (c : cfg) : cfg :=
                           (tk_ds tk) (tk_iter tk + 1) (tk_next tk) in
         mkC (MRun t (k o)) fr (emit (EvStep t (tk_iter tk) o) (set_task t tk1 s))
       end
-    | None => mkC (MDone (Err E_NOTIMPL)) [] s
+    | None => mkC MStuck fr s
     end
 
   | MRun t p =>
@@ -591,7 +592,7 @@ Definition step (P : params) (c : cfg) : cfg :=
         | [] => mkC (MResume t) fr s2
         | _ => mkC MContRet fr s2
         end
-      | None => mkC (MDone (Err E_NOTIMPL)) [] s1
+      | None => mkC MStuck fr s1
       end
     | Let f k => let '(h, s1) := create t f s in mkC (MRun t (k h)) fr s1
     | Sync h k => mkC (MValue h) (FValue t k :: fr) s
@@ -608,14 +609,14 @@ Definition step (P : params) (c : cfg) : cfg :=
       let s1 := with_active s old in
       let s2 := match get_task t s1 with Some tk => set_task t (tk_set_ds tk false) s1 | None => s1 end in
       mkC MExecLoop fr' s2
-    | _ => mkC (MDone (Err E_NOTIMPL)) [] s
+    | _ => mkC MStuck fr s
     end
 
   | MDeliver o =>
     match fr with
     | FValue t k :: fr' => mkC (MRun t (k o)) fr' (emit (EvGot t o) s)
     | FTop :: _ => mkC (MDone o) [] s
-    | _ => mkC (MDone (Err E_NOTIMPL)) [] s
+    | _ => mkC MStuck fr s
     end
 
   (* no asynq frame has a finally/except on these paths: frames are simply popped *)
@@ -631,7 +632,7 @@ Definition step (P : params) (c : cfg) : cfg :=
 Fixpoint run (P : params) (fuel : nat) (c : cfg) : cfg :=
   match fuel with
   | O => c
-  | S n => match c_mode c with MDone _ => c | _ => run P n (step P c) end
+  | S n => match c_mode c with MDone _ | MStuck => c | _ => run P n (step P c) end
   end.
 
 (* one top-level computation: create the root task from [p] and call .value() on it *)
